@@ -322,9 +322,9 @@ class MessageQueue(Entity):
 
         yield self._delivery_latency
 
-        # Create delivery event
+        # Create delivery event (stamped with the clock after the latency wait)
         delivery_event = Event(
-            time=now,
+            time=self._clock.now if self._clock else now,
             event_type="message_delivery",
             target=consumer,
             context={
